@@ -2,6 +2,7 @@ import FFVerif.Props.C10
 import FFVerif.Props.C10Asm
 import FFVerif.Props.C07
 import FFVerif.Props.C10Shifts
+import FFVerif.Props.C10Unique
 import FFVerif.Pins.pinFrequencyShifts
 import FFVerif.Pins.C10_secondOrder_source_shape
 import FFVerif.Pins.C10_secondOrderFF_source_shape
@@ -31,6 +32,8 @@ import FFVerif.Pins.C07_body_get_control_matrix
 #print axioms FFVerif.C07.cleanup_freq
 #print axioms FFVerif.C07.getFF_spec
 #print axioms FFVerif.C07.served_value_is_fresh
+#print axioms FFVerif.C10.so_segment_eigh_independent
+#print axioms FFVerif.C10.secondOrderFF_eigh_independent
 #print axioms FFVerif.C10.frequency_shifts_entries
 #print axioms FFVerif.C10.frequency_shifts_single_spectrum_is_broadcast
 #print axioms FFVerif.C10.frequency_shifts_subset_is_slice
